@@ -58,7 +58,7 @@ def run(ck):
             if rc != 0:
                 deaths.append({"rc": rc, "err": err or ("signal %d" % -rc), "index": 0, "lines": good + ["args: %s" % args]})
     ck.extra["processes"] = len(jobs)
-    vlib.conformance(ck, "V:threaded-build-runs", "TraceThreads", "trace.cfg", tp, deaths[:12], diag_of, min_events=len(jobs) // 2, timeout=900)
+    vlib.conformance(ck, "V:threaded-build-runs", "TraceThreads", "trace.cfg", tp, deaths[:12], diag_of, min_events=len(jobs) // 2, timeout=900, split_every=1000)
 
 
 def replay(path):
